@@ -219,7 +219,10 @@ def run(rep, facts, tier):
             if rv['r'] == 'use' and x.get('o') == 'const' and x['k'].get('v') == 0:
                 rep.ok('R16.3', 'validate_receiver_specific_mac/def#%d' % n_defs, 'false', vr.where(bb, si))
             elif rv['r'] == 'use' and x.get('o') == 'const' and x['k'].get('v') == 1:
-                ok = bool(nokey) and P.every_path_passes(None, (bb, si), via_edges=nokey, from_entry=True)
+                # also fine: the Ok arm of a match on validate_mac(receiver-specific key, ..)
+                vok = [(s_, t_) for s_, t_, cond, lab in switch_edges(vr, fx, og) if lab in ('Ok', 'Continue') and cond[0] == 'discr' and is_verifier_call_term(cond[1]) and
+                       term_has(cond[1][2][0], lambda y: y[0] == 'field' and y[1] == 'key') and term_has(cond[1][2][0], lambda y: y[0] == 'field' and y[1] == 'receiver_specific_key')]
+                ok = bool(nokey) and P.every_path_passes(None, (bb, si), via_edges=nokey + vok, from_entry=True)
                 rep.check(ok, 'R16.3', 'validate_receiver_specific_mac/def#%d' % n_defs, 'true only when there is no receiver-specific key',
                           'validate_receiver_specific_mac returns true on a path where a receiver-specific key exists but no MAC was verified '
                           '(e.g. no MAC entry for our key id): origin authentication is bypassed', vr.where(bb, si))
